@@ -55,6 +55,7 @@ def run(ctx):
     for version in ('3.0', '2.0'):
         for kind in _zinc.kinds_for(version):
             _kind(ctx, entries, kind, version)
+    J.verbatim_payload(ctx, 'C02.D3', entries, fn)
     _assembly(ctx)
     J.dumps_call(ctx, 'C02.D6')
     J.loads_calls(ctx, 'C02.D6')
